@@ -13,6 +13,36 @@ def B(profile, quick, thorough, **kw):
     d.update(kw)
     return d
 
+def mouse_engine(run, tier, seed):
+    import lineengine
+    modes = ["off", "press", "press/release", "button-motion", "any-motion"]
+    encs = ["X10", "UTF-8", "SGR"]
+
+    def describe(case, impl, model):
+        f = case.split()
+        mode, enc = int(f[0]), int(f[1])
+        name = "%s/%s" % (modes[mode] if 0 <= mode < 5 else mode, encs[enc] if 0 <= enc < 3 else enc)
+        ia, ma = impl.split(" -1 ", 1)[-1], model.split(" -1 ", 1)[-1]
+        kind = "panic" if ia.startswith("2 ") else ("report where none is due" if ma.startswith("0 0") and not ia.startswith("0 0") else
+                                                    ("no report where one is due" if ia.startswith("0 0") else "different report bytes"))
+        return ("SendMouseRaw(mode=%s btn=%s press=%s mods=%s x=%s y=%s writer=%s): %s; status/calls/bytes expected [%s] got [%s]" % (
+            name, f[2], f[3], f[4], f[5], f[6], f[7:], kind, ma, ia), (mode, enc, kind))
+    lineengine.run_engine("mouse", [], describe, run)
+
+
+def keys_engine(run, tier, seed):
+    import lineengine
+
+    def describe(case, impl, model):
+        f = case.split()
+        ia, ma = (impl + " ").split(" -1 ", 1)[-1].strip(), (model + " ").split(" -1 ", 1)[-1].strip()
+        if f and f[0] == "1":
+            return ("encodeKey case [%s] (tag flags mok appcursor code rune mod event shifted base text...): expected bytes [%s] got [%s]" % (
+                case, ma, ia), ("sample", f[1] if len(f) > 1 else "", f[5] if len(f) > 5 else ""))
+        return ("encodeKey bucket [%s] (256 modifier masks x 4 event values): hash expected %s got %s" % (case, ma, ia), ("bucket", case))
+    lineengine.run_engine("keys", ["thorough" if tier == "thorough" else "quick", "-seed", str(seed)], describe, run, timeout=3000)
+
+
 PROPS = {
     "C01": {"tags": [2], "ppref": ("C01",), "batches": [
         B("hostile", 500, 20000, tags=[]), B("mixed", 300, 8000, tags=[]), B("hostile", 150, 4000, modes="1", tags=[])]},
@@ -32,6 +62,8 @@ PROPS = {
     "C09": {"tags": ALL, "ppref": ("C09",), "batches": [
         B("c09", 600, 15000, step=True, kinds_wanted=[10, 13])]},
     "C10": {"tags": [7, 8], "ppref": ("C10",), "batches": [B("stepall", 400, 10000, step=True), B("mixed", 200, 5000)]},
+    "C12": {"tags": [], "ppref": ("C12",), "batches": [], "extra": [keys_engine]},
+    "C13": {"tags": [], "ppref": ("C13",), "batches": [], "extra": [mouse_engine]},
     "C14": {"tags": [4], "ppref": ("C14",), "batches": [B("c14", 600, 15000), B("mixed", 200, 5000)]},
     "C17": {"tags": ALL, "ppref": ("C17",), "batches": [
         B("c17", 600, 15000, step=True, kinds_wanted=[7, 15])]},
